@@ -94,7 +94,25 @@ def check_xver(case, il, ctx, ml=""):
     return probs
 
 
+# Properties that do not say "the answer equals the specification's" but constrain the implementation's own
+# behaviour (no panic, only a prefix delivered, same bytes twice, same answer under threads, one item per
+# byte ...).  For them a difference between implementation and model is a broken CORRESPONDENCE — the
+# property is then no longer shown to hold — but not by itself an input on which the property fails; such
+# differences are reported once, as `no-failing-input-found`, unless one of the property's own clauses
+# (evaluated on the implementation's answers) fails too.
+CORRESPONDENCE_PROPS = {"C06", "C12", "C13", "C14", "C15", "C20"}
+CORR = "CORRESPONDENCE: "
+_MODEL_CMP = re.compile(r"( model |: implementation .* expected |^MODEL-LAYER|record stream differs|digests differ|cache bytes)")
+
+
 def check_case(prop, case, il, ml, ctx):
+    probs = _check_case(prop, case, il, ml, ctx)
+    if prop in CORRESPONDENCE_PROPS:
+        probs = [(CORR + p) if _MODEL_CMP.search(p) and not p.startswith(CORR) else p for p in probs]
+    return probs
+
+
+def _check_case(prop, case, il, ml, ctx):
     """returns a list of problems (empty = the case agrees)"""
     op = case.split(" ", 1)[0]
     if op in ("KI", "TI", "LI", "PI"):
